@@ -9,8 +9,8 @@ META = {
     "technique": "Rocq proof over a hand-written Gallina model of the DDDMP node sections and name handling (7-bit integers, escaping, node codes, binary node section with a hash-consing importer, sanitising of names); model tied to /repo by differential runs: the extracted importer model reads every file the real exporter writes and every mutated file the real importer accepts, and is compared with the diagram / functions the real importer built",
     "category": "proof",
     "design_ref": "DESIGN.md section 5, C15",
-    "level_text": "Theorems in coq/Props/C15.v (checked by coqc on every run, Print Assumptions audited): decode_7bit(encode_7bit n) = n for every usize, unescape(escape bs) = bs, node code byte round trip, the exporter's choice of Terminal/Relative1/RelativeID/AbsoluteID codes for variable, then and else is decoded to the same ids, and for every reduced, duplicate-free, bottom-up numbered diagram the importer model run on the exporter model's binary node section (+ '.end' + root ids) rebuilds exactly the exported nodes (id i+2 -> unique-table entry i) without consuming further input, hence denotes the same functions; name sanitising: written variable/root names are non-empty and free of spaces/control characters, clean names are written unchanged, strict mode reports exactly the unclean/empty ones. On every run the real exporter/importer (BDD, BCDD, ZBDD, MTBDD; TDD export + header only) are driven through all 256 three-variable functions and random diagrams up to 10 variables in {ascii,binary}x{2.0,3.0}x{named,unnamed vars}x{named,unnamed roots}x{strict,non-strict} with hostile names: exporter Ok => DumpHeader::load + import Ok, same manager => identical handles, fresh manager / embedding into a larger manager => equal truth tables, header accessors = the model's sanitised names / support / order / root names, strict errors <=> model; the extracted importer model decodes the exported bytes and must be isomorphic to the dump of the real diagram. Malformed stream: every truncation point and random byte mutations of valid files: the real importer must return Err or build exactly the functions the model reads from the same bytes; panics (catch_unwind), process aborts and hangs (watchdog) are violations.",
-    "level_note": "Trusted: Coq kernel, extraction (ExtrOcamlBasic), OCaml driver (incl. its scan of the header lines for .mode/.varinfo/.rootids), Rust harness. Modelled, not verified: header text (names, .ids/.permids, root names are compared as token lists), decimal printing/parsing and UTF-8 handling are the Rust std's. Proved for the binary format only; the ASCII node-line importer is modelled in Gallina and checked against the real importer on every exported and every accepted mutated file but its round-trip theorem is not proved (needs a model of decimal printing); uniqueness of the generated variable names is checked by the run, not proved. The model importer represents BDDs like BCDDs (⊥ = ¬⊤). Totality of the real importer on arbitrary bytes is a search (mutation stream), the theorems are about the model importer, which is total by construction. ZBDD/MTBDD imports use a rejecting complement function (negated edges are not meaningful there); reorder-based orders only with VERIF_C15_REORDER=1 (otherwise the six orders are realised by permuted variable numbering). Files claiming more than 2^22 variables are not handed to DumpHeader::load (it allocates .nvars words by design).",
+    "level_text": "Theorems in coq/Props/C15.v (checked by coqc on every run, Print Assumptions audited): decode_7bit(encode_7bit n) = n for every usize, unescape(escape bs) = bs, node code byte round trip, the exporter's choice of Terminal/Relative1/RelativeID/AbsoluteID codes for variable, then and else is decoded to the same ids; for every reduced, duplicate-free, bottom-up numbered diagram the importer model run on the exporter model's BINARY node section (BCDD; + '.end' + root ids) and on the exporter model's ASCII node section (BDD, BCDD, ZBDD, MTBDD; decimal printing/parsing, edge lists, terminal descriptions) rebuilds exactly the exported nodes (node id -> unique-table entry) without consuming further input, hence denotes the same functions; name sanitising: written variable/root names are non-empty and free of spaces/control characters, clean names are written unchanged, strict mode reports exactly the unclean/empty ones. On every run the real exporter/importer (BDD, BCDD, ZBDD, MTBDD; TDD export + header only) are driven through all 256 three-variable functions and random diagrams up to 10 variables in {ascii,binary}x{2.0,3.0}x{named,unnamed vars}x{named,unnamed roots}x{strict,non-strict} with hostile names: exporter Ok => DumpHeader::load + import Ok, same manager => identical handles, fresh manager / embedding into a larger manager => equal truth tables, header accessors = the model's sanitised names / support / order / root names, strict errors <=> model; the extracted importer model decodes the exported bytes and must be isomorphic to the dump of the real diagram, and the extracted exporter models must reproduce the real node section byte for byte. Malformed stream: every truncation point and random byte mutations of valid files: the real importer must return Err or build exactly the functions the model reads from the same bytes; panics (catch_unwind), process aborts and hangs (watchdog) are violations.",
+    "level_note": "Trusted: Coq kernel, extraction (ExtrOcamlBasic), OCaml driver (incl. its scan of the header lines for .mode/.varinfo/.rootids), Rust harness. Modelled, not verified: header text (names, .ids/.permids, root names are compared as token lists), UTF-8 handling and the i64 terminal syntax are the Rust std's (modelled); decimal printing is modelled by a Gallina printer that is compared with the real output on every ASCII export. Not proved: uniqueness of the generated variable names (C15_var_names_unique_partial, statement in coq/Props/C15.v; the run checks that no exported file contains a duplicate name). The round-trip theorems are about reduced duplicate-free diagrams (what a manager holds); on other node lists the model importer hash-conses and reduces like the real one, which is checked by the malformed stream only. Totality of the real importer on arbitrary bytes is a search (mutation stream), the theorems are about the model importer, which is total by construction. ZBDD/MTBDD imports use a rejecting complement function (negated edges are not meaningful there); reorder-based orders only with VERIF_C15_REORDER=1 (otherwise the six orders are realised by permuted variable numbering). Files claiming more than 2^22 variables are not handed to DumpHeader::load (it allocates .nvars words by design). TDD has no importer (import::<TDDFunction> does not compile), only its exports and their headers are checked.",
 }
 
 ALLOWED_AXIOMS = ()
